@@ -135,6 +135,9 @@ class C12(Prop):
             'threads, each also with every single fault position. non-trivial = at least two threads have a critical section; '
             'distinct = distinct input S-expression')
     assumptions = ['threading.Semaphore(1) semantics are modelled (harness/sched.py double), not verified',
+                   'translator tie (harness/tfrskel.py, TTV/Model/TfrSkel.lean): trusted are the interpreter\'s reading of sequencing / if / try-finally / tail return, '
+                   'that each recognised statement is the one atomic step (acquire, release, one call on the target) or forwarder-local assignment its name says, and that '
+                   'acquire/release do not raise; failfast on the forwarder is unset (the _stop_if_failfast() after unsuccessful outcomes is then a no-op; C04 covers it)',
                    'only operations on the shared semaphore and target are scheduling points: each forwarder is confined to its thread, as the property assumes; CPython pre-emption inside real.py is not explored',
                    'the target has no failfast attribute (the extra stop() of ExtendedToOriginalDecorator under failfast belongs to C04)',
                    'a fault is an exception raised by the target call - an Exception subclass or, depending on the position, a BaseException that is not an Exception (as KeyboardInterrupt is); faults are addressed per thread (k-th call of thread i), so a plan is schedule-independent',
@@ -147,13 +150,21 @@ class C12(Prop):
                 'raising outcome still followed by stopTest), never interleaved; per thread exactly its own sequential call sequence (every outcome once, in order, '
                 'own start time and tags); the semaphore is free at every operation boundary; no reachable state is stuck and every run terminates. The hand-written '
                 'model is tied to the code by a differential check that drives real ThreadsafeForwardingResult objects in real threads under a deterministic '
-                'scheduler (bounded-pre-emption exhaustive + random schedules, injected faults).',
+                'scheduler (bounded-pre-emption exhaustive + random schedules, injected faults), and by a translator tie: the order and try/finally structure of '
+                '_add_result_with_semaphore, startTestRun/stopTestRun/stop/done/shouldStop, startTest/stopTest/tags/time are re-read from real.py on every run '
+                '(harness/tfrskel.py -> TTV/Generated/TfrSkel.lean) and theorems C12_src_block / C12_src_ctl / C12_src_local / C12_src_forward prove that the model\'s '
+                'block semantics is the interpretation of exactly these skeletons.',
         'note': 'partial by nature: the theorems cover every interleaving of the model\'s atomic steps (operations on the shared semaphore/target); CPython thread '
                 'pre-emption is reached only through the scheduler-driven correspondence. trusted: Lean kernel, the model TTV/Model/Conc.lean, harness/sched.py and '
                 'the plug-in; threading.Semaphore semantics modelled',
         'technique': 'Lean 4 invariant proof over a small-step interleaving semantics (all schedules, no bound), executable spec shared with a differential '
                      'correspondence check under a deterministic thread scheduler',
     }
+
+    def extract_tables(self, repo):
+        """translator tie: the control skeletons of ThreadsafeForwardingResult, re-read from the tree under test"""
+        from harness import tfrskel
+        return {'TTV/Generated/TfrSkel.lean': tfrskel.generate(repo)}
 
     def __init__(self):
         self.stats = {}
